@@ -145,3 +145,55 @@ func verifH_C14_client() {
 	verifAssert(len(rec.batches) == n, "every ping is answered with a pong")
 	verifReach("end")
 }
+
+// C14_server_probe: the heartbeat of a session that is being upgraded. A candidate transport delivers the upgrade probe
+// (PING "probe", answered with PONG "probe" on the candidate) at a symbolic instant before the first heartbeat ping; the
+// peer then goes silent and never answers a heartbeat. The probe is no answer to a heartbeat: the dead peer is still
+// detected no later than pingInterval + pingTimeout after the session started (the first heartbeat ping goes
+// unanswered), with the ping-timeout reason, exactly once.
+//
+//verif:unwind 12
+//verif:rand concrete
+//verif:replay free
+func verifH_C14_server_probe() {
+	pi := time.Duration(verifAnyInt64())
+	pt := time.Duration(verifAnyInt64())
+	verifAssume(pi >= 100*time.Millisecond && pi <= 300*time.Millisecond)
+	verifAssume(pt >= 100*time.Millisecond && pt <= 300*time.Millisecond)
+	tr := &verifPingTransport{pings: make(chan struct{}, 8)}
+	closed := 0
+	var reason Reason
+	var closedAt time.Time
+	srv := NewServer(nil, &ServerConfig{UpgradeTimeout: time.Second})
+	verifTimers(true)
+	start := time.Now()
+	s := newServerSocket("sid1", []string{"webtransport"}, tr, verifCallbacks(), pi, pt, NewNoopDebugger(), nil)
+	s.setCallbacks(&Callbacks{OnClose: func(r Reason, err error) {
+		closed++
+		reason = r
+		closedAt = time.Now()
+	}})
+	verifSettle() // the ping loop has started its first interval before any time passes
+	cand := &verifRecServerTransport{name: "webtransport"}
+	c := verifCallbacks()
+	srv.maybeUpgrade(&verifRW{}, verifReq("GET", "EIO=4&transport=webtransport&sid=sid1"), s, "webtransport", cand, c)
+	verifSettle()
+	d := time.Duration(verifAnyInt64())
+	verifAssume(d >= 0 && d < pi)
+	verifAdvance(d)
+	c.OnPacket(&parser.Packet{Type: parser.PacketTypePing, Data: []byte("probe")})
+	verifSettle()
+	verifAssert(len(cand.sent) >= 1 && cand.sent[0].Type == parser.PacketTypePong, "the probe is answered on the candidate")
+	// silence from here on
+	verifWaitQuiescent()
+	if verifIsNative() {
+		time.Sleep(pi + pt + 200*time.Millisecond)
+	}
+	slack := time.Duration(0)
+	if verifIsNative() {
+		slack = 80 * time.Millisecond
+	}
+	verifAssert(closed == 1 && reason == ReasonPingTimeout, "a peer that never answers a heartbeat is detected, once, with the ping-timeout reason")
+	verifAssert(closedAt.Sub(start) <= pi+pt+slack, "no later than pingInterval + pingTimeout after the session started: an upgrade probe does not count as a heartbeat answer")
+	verifReach("end")
+}
